@@ -174,6 +174,15 @@ func features(list []Complex) map[string]bool {
 			}
 		})
 		walkSimples(&list[i], func(s *Simple, depth int) {
+			// a name or operand holding a pseudo-space (U+00A0, U+000B, U+2003 ...: white space for Go, not for CSS)
+			switch {
+			case s.K == "class" && hasPseudoSpace(s.N):
+				out["pseudo_space_in_class"] = true
+			case s.K == "attr" && s.Op == "~=" && hasPseudoSpace(s.V):
+				out["pseudo_space_in_word_operand"] = true
+			case s.K == "attr" && s.Op != "" && hasPseudoSpace(s.V), s.K == "id" && hasPseudoSpace(s.N), s.K == "type" && hasPseudoSpace(s.N):
+				out["pseudo_space_in_other_name"] = true
+			}
 			switch s.K {
 			case "attr":
 				op := s.Op
